@@ -118,7 +118,8 @@ def gating_rule(ctx, I):
 def writers_rule(ctx):
     for (q, val, line, mod, aug) in census.attr_stores(ctx.model, '_activePrintJob'):
         ctx.instance('C11.R3', q)
-        if q not in ('ExcludeRegionPlugin.__init__', 'ExcludeRegionPlugin.initialize', 'ExcludeRegionPlugin.on_event'):
+        if not census.only_reached_through(ctx.model, q, ('ExcludeRegionPlugin.__init__', 'ExcludeRegionPlugin.initialize',
+                                                          'ExcludeRegionPlugin.on_event')):
             ctx.report('C11.R3', q, '_activePrintJob = %s' % (ast.unparse(val) if val is not None else '?'),
                        'the active-print flag is written outside the lifecycle functions', line=line)
 
